@@ -251,6 +251,12 @@ def rule_reduce_axis(ctx):
             if e.kind == 'store_sub' and e.loops and e.a[0] in ('call', 'mut', 'phi') and e.c[0] == 'sub' and e.c[1] == SELF:
                 if any(a[0] == 'tryfail' for a, pol in e.guards) or any(a[0] == 'cmp' and a[1] == 'in' and pol is False for a, pol in e.guards):
                     okg = True
+                # ... or one store for both cases, whose value is either the rebuilt variable or the variable itself (a helper that returns `item` when the
+                # dimension is missing)
+            if e.kind == 'store_sub' and e.loops and e.a[0] in ('call', 'mut', 'phi') and isinstance(e.c, tuple) and e.c[0] == 'phi':
+                alts = T.strip_phi(e.c)
+                if any(x[0] == 'sub' and x[1] == SELF and x[2] == e.b for x in alts) and any(x[0] == 'call' and T.dotted(x[1]) == 'DimArray' for x in [strip(y) for y in alts]):
+                    okg = True
     if okp:
         ctx.holds('R2', 'reduce_axis: func(item.values, axis=item._get_axis_info(name)[0])')
     if ok_order:
